@@ -157,13 +157,20 @@ impl<R> Archive<R> {
         let archive_chunks = dictionary
             .chunk_descriptors
             .into_iter()
-            .map(|dict| ChunkDescriptor {
-                checksum: dict.checksum.into(),
-                archive_size: dict.archive_size as usize,
-                archive_offset: chunk_data_offset + dict.archive_offset,
-                source_size: dict.source_size,
+            .map(|dict| {
+                // The chunk must lie within the addressable range of the archive.
+                let archive_offset = chunk_data_offset
+                    .checked_add(dict.archive_offset)
+                    .filter(|offset| offset.checked_add(dict.archive_size.into()).is_some())
+                    .ok_or_else(|| ArchiveError::invalid_archive("invalid chunk offset"))?;
+                Ok(ChunkDescriptor {
+                    checksum: dict.checksum.into(),
+                    archive_size: dict.archive_size as usize,
+                    archive_offset,
+                    source_size: dict.source_size,
+                })
             })
-            .collect();
+            .collect::<Result<Vec<ChunkDescriptor>, ArchiveError<R::Error>>>()?;
         let chunker_params = dictionary
             .chunker_params
             .ok_or_else(|| ArchiveError::invalid_archive("invalid chunker parameters"))?;
